@@ -1,6 +1,7 @@
 from typing import Sequence
 
 from pbhhg_py import abstract_syntax as AS
+from pbhhg_py import error
 from pbhhg_py import utils
 
 
@@ -27,6 +28,10 @@ def build_tbl(
         start, end, step = utils.match_defaults(
             metadata, _rest, 3, [len(seq.value), 1]
         )
+        if step == 0:
+            raise error.UnsuspectedHangeulValueError(
+                metadata, "발췌 간격으로 0을 줄 수 없습니다."
+            )
         result = seq.value[start:end:step]
         if isinstance(result, str):
             return AS.String(result)
@@ -86,6 +91,10 @@ def build_tbl(
         acc = init
         feed = seq.value[::step]
         if acc is None:
+            if not feed:
+                raise error.UnsuspectedHangeulValueError(
+                    metadata, "빈 목록은 초깃값 없이 수렴시킬 수 없습니다."
+                )
             acc = feed[0]
             feed = feed[1:]
 
